@@ -1,3 +1,347 @@
 import JSight.Model.Context
+import JSight.Proofs.C06
+/-!
+C06: directive context resolution (`processContext`, `closeLastExplicitContext`, `processEOF`).
+A declarative placement rule `specWhere` over the stack of open directives, and the theorems that the
+walk-up loop `place` implements it, that ")" and end of input behave as documented, and that the
+resulting forest flattens back to the input token stream.
+
+All theorems are parametric in the admissibility tables: only `rootAdmits`, `admits`, `isHTTPMethod`
+are used, never unfolded (the tables are unfolded only by the closing `example`s).  Core Lean only.
+-/
 namespace JSight.C06
+open JSight Gen
+
+/-- the "path-bearing HTTP method directly under a URL" case, which makes the directive a top-level one
+    (documented language rule) -/
+def hoists (parent d : Dir) : Bool := isHTTPMethod d.kind && d.hasPath && parent.kind == Kind.URL
+
+/-- Declarative placement over the stack of open directives (innermost first):
+    among the open directives from the innermost outwards, up to and including the first parenthesised one,
+    the first that admits the kind is the parent; if none admits it and no parenthesised one was met, the
+    directive goes to top level when its kind may stand there; otherwise there is no place. -/
+inductive Where where
+  | under (depth : Nat)     -- becomes a child of the open directive at this depth (0 = innermost)
+  | top                     -- becomes a top-level directive
+  | nowhere
+  deriving DecidableEq, Repr
+
+def specWhere : List Dir → Dir → Where
+  | [], d => if rootAdmits d.kind then .top else .nowhere
+  | p :: rest, d =>
+    if admits p.kind d.kind then .under 0
+    else if p.explicit then .nowhere
+    else match specWhere rest d with
+      | .under n => .under (n + 1)
+      | w => w
+
+/-! ### the declarative rule, characterised -/
+
+/-- `specWhere` names depth `n` exactly when the open directive there admits the kind and every open
+    directive inside it neither admits the kind nor is parenthesised -/
+theorem specWhere_under_iff (ds : List Dir) (d : Dir) (n : Nat) :
+    specWhere ds d = .under n ↔
+      ∃ p, ds[n]? = some p ∧ admits p.kind d.kind = true ∧
+        ∀ q ∈ ds.take n, admits q.kind d.kind = false ∧ q.explicit = false := by
+  induction ds generalizing n with
+  | nil => simp only [specWhere]; split <;> simp
+  | cons p rest ih =>
+    simp only [specWhere]
+    cases ha : admits p.kind d.kind with
+    | true =>
+      cases n with
+      | zero => simp [ha]
+      | succ n => simp [ha]
+    | false =>
+      cases hx : p.explicit with
+      | true =>
+        cases n with
+        | zero => simp [ha]
+        | succ n => simp [hx]
+      | false =>
+        simp only [Bool.false_eq_true, ↓reduceIte]
+        cases n with
+        | zero =>
+          cases specWhere rest d <;> simp [ha]
+        | succ n =>
+          have := ih n
+          cases hs : specWhere rest d with
+          | under m =>
+            rw [hs] at this
+            simp only [Where.under.injEq, Nat.add_right_cancel_iff]
+            rw [Where.under.injEq] at this
+            rw [this]; simp [ha, hx]
+          | top => rw [hs] at this; simp at this ⊢; simpa [ha, hx] using this
+          | nowhere => rw [hs] at this; simp at this ⊢; simpa [ha, hx] using this
+
+/-- `specWhere` names the top level exactly when the kind may stand there and no open directive admits
+    the kind or is parenthesised -/
+theorem specWhere_top_iff (ds : List Dir) (d : Dir) :
+    specWhere ds d = .top ↔
+      rootAdmits d.kind = true ∧ ∀ q ∈ ds, admits q.kind d.kind = false ∧ q.explicit = false := by
+  induction ds with
+  | nil => simp only [specWhere]; split <;> simp [*]
+  | cons p rest ih =>
+    simp only [specWhere]
+    cases ha : admits p.kind d.kind with
+    | true => simp [ha]
+    | false =>
+      cases hx : p.explicit with
+      | true => simp [hx]
+      | false =>
+        simp only [Bool.false_eq_true, ↓reduceIte]
+        cases hs : specWhere rest d with
+        | under m => rw [hs] at ih; simp at ih ⊢; simpa [ha, hx] using ih
+        | top => rw [hs] at ih; simp at ih ⊢; simpa [ha, hx] using ih
+        | nowhere => rw [hs] at ih; simp at ih ⊢; simpa [ha, hx] using ih
+
+/-! ### placement -/
+
+/-- `place_cons` restated with `hoists` -/
+theorem place_cons' (f : Frame) (below : List Frame) (roots : List Tree) (d : Dir) :
+    place (f :: below) roots d =
+      if admits f.d.kind d.kind then
+        if hoists f.d d then
+          if anyExplicit (f :: below) then .error (.pathMethodInExplicit d.id)
+          else .ok { frames := [{ d := d }], roots := closeAll (f :: below) roots }
+        else .ok { frames := { d := d } :: f :: below, roots := roots }
+      else if f.d.explicit then .error (.incorrectContext d.id)
+      else place (pop f below roots).1 (pop f below roots).2 d :=
+  place_cons f below roots d
+
+/-- (1) the loop finds the place the declarative rule names -/
+theorem place_ok_iff (frames : List Frame) (roots : List Tree) (d : Dir) :
+    (∃ c, place frames roots d = .ok c) ↔
+      (match specWhere (frames.map (·.d)) d with
+       | .nowhere => False
+       | .top => True
+       | .under n => ∀ p, (frames.map (·.d))[n]? = some p → hoists p d = true → anyExplicit frames = false) := by
+  induction frames, roots using frames_ind with
+  | nil roots =>
+    rw [place_nil]
+    simp only [List.map_nil, specWhere]
+    split <;> simp
+  | cons f below roots ih =>
+    rw [place_cons']
+    simp only [List.map_cons, specWhere]
+    cases ha : admits f.d.kind d.kind with
+    | true =>
+      cases hh : hoists f.d d with
+      | true => cases hx : anyExplicit (f :: below) <;> simp [hh]
+      | false => simp [hh]
+    | false =>
+      cases hx : f.d.explicit with
+      | true => simp
+      | false =>
+        simp only [Bool.false_eq_true, ↓reduceIte]
+        rw [ih, pop_map_d, pop_anyExplicit, anyExplicit_cons]
+        cases specWhere (List.map (fun x => x.d) below) d with
+        | under n => simp [hx]
+        | top => simp
+        | nowhere => simp
+
+/-- (2) on success the new directive is the innermost open one, and the open directives below it are exactly
+    the old ones from the parent outwards (none for top level / a hoisted method) -/
+theorem place_frames (frames : List Frame) (roots : List Tree) (d : Dir) (c : Ctx)
+    (h : place frames roots d = .ok c) :
+    c.frames.map (·.d) =
+      match specWhere (frames.map (·.d)) d with
+      | .under n =>
+        (match (frames.map (·.d))[n]? with
+         | some p => if hoists p d then [d] else d :: (frames.map (·.d)).drop n
+         | none => [d])
+      | _ => [d] := by
+  induction frames, roots using frames_ind with
+  | nil roots =>
+    rw [place_nil] at h
+    simp only [List.map_nil, specWhere]
+    split at h
+    · cases h; simp [*]
+    · cases h
+  | cons f below roots ih =>
+    rw [place_cons'] at h
+    simp only [List.map_cons, specWhere]
+    cases ha : admits f.d.kind d.kind with
+    | true =>
+      simp only [ha, ↓reduceIte] at h ⊢
+      cases hh : hoists f.d d with
+      | true =>
+        simp only [hh, ↓reduceIte] at h
+        split at h
+        · cases h
+        · cases h; simp [hh]
+      | false =>
+        simp only [hh, Bool.false_eq_true, ↓reduceIte] at h
+        cases h; simp [hh]
+    | false =>
+      simp only [ha, Bool.false_eq_true, ↓reduceIte] at h ⊢
+      cases hx : f.d.explicit with
+      | true => simp [hx] at h
+      | false =>
+        simp only [hx, Bool.false_eq_true, ↓reduceIte] at h ⊢
+        rw [ih h, pop_map_d]
+        cases specWhere (List.map (fun x => x.d) below) d with
+        | under n => simp
+        | top => simp
+        | nowhere => simp
+
+/-- (3) the walk never leaves an open parenthesised context: every open parenthesised directive stays open -/
+theorem place_keeps_explicit (frames : List Frame) (roots : List Tree) (d : Dir) (c : Ctx)
+    (h : place frames roots d = .ok c) (f : Dir) (hf : f ∈ frames.map (·.d)) (hx : f.explicit = true) :
+    f ∈ c.frames.map (·.d) := by
+  induction frames, roots using frames_ind with
+  | nil roots => simp at hf
+  | cons f0 below roots ih =>
+    rw [place_cons] at h
+    split at h
+    · split at h
+      · split at h
+        · cases h
+        · rename_i hne
+          exfalso
+          apply hne
+          rw [anyExplicit_eq, List.any_eq_true]
+          exact ⟨f, hf, hx⟩
+      · cases h
+        simp only [List.map_cons] at hf ⊢
+        exact List.mem_cons_of_mem _ hf
+    · split at h
+      · cases h
+      · rename_i hne
+        apply ih h
+        rw [pop_map_d]
+        simp only [List.map_cons, List.mem_cons] at hf
+        rcases hf with rfl | hf
+        · exact absurd hx hne
+        · exact hf
+
+/-- (4) rejection: exactly when the declarative rule finds no place (or the hoist meets an open parenthesis) -/
+theorem place_error_iff (frames : List Frame) (roots : List Tree) (d : Dir) :
+    (∃ e, place frames roots d = .error e) ↔ ¬ (∃ c, place frames roots d = .ok c) := by
+  cases place frames roots d <;> simp
+
+/-- (4') the rejection stated directly against the declarative rule -/
+theorem place_error_iff_spec (frames : List Frame) (roots : List Tree) (d : Dir) :
+    (∃ e, place frames roots d = .error e) ↔
+      (match specWhere (frames.map (·.d)) d with
+       | .nowhere => True
+       | .top => False
+       | .under n => ∃ p, (frames.map (·.d))[n]? = some p ∧ hoists p d = true ∧ anyExplicit frames = true) := by
+  rw [place_error_iff, place_ok_iff]
+  cases specWhere (frames.map (·.d)) d with
+  | under n =>
+    simp only []
+    cases hq : (frames.map (·.d))[n]? with
+    | none => simp
+    | some p =>
+      cases hh : hoists p d with
+      | false =>
+        constructor
+        · intro hn; exact absurd (fun q hq' hh' => by cases hq'; rw [hh] at hh'; cases hh') hn
+        · rintro ⟨q, hq', hh', _⟩; cases hq'; rw [hh] at hh'; cases hh'
+      | true =>
+        cases hx : anyExplicit frames with
+        | false =>
+          constructor
+          · intro hn; exact absurd (fun _ _ _ => rfl) hn
+          · rintro ⟨_, _, _, h⟩; cases h
+        | true =>
+          constructor
+          · intro _; exact ⟨p, rfl, hh, rfl⟩
+          · intro _ hn; exact absurd (hn p rfl hh) (by simp)
+  | top => simp
+  | nowhere => simp
+
+/-! ### ")" and end of input -/
+
+/-- (5) ")" closes the innermost parenthesised open directive; it is rejected iff there is none -/
+theorem closeExplicit_ok_iff (frames : List Frame) (roots : List Tree) :
+    (∃ c, closeExplicit frames roots = .ok c) ↔ anyExplicit frames = true := by
+  induction frames, roots using frames_ind with
+  | nil roots => simp [closeExplicit_nil]
+  | cons f below roots ih =>
+    rw [closeExplicit_cons]
+    cases hx : f.d.explicit with
+    | true => simp [hx]
+    | false =>
+      simp only [Bool.false_eq_true, ↓reduceIte]
+      rw [ih, pop_anyExplicit]
+      simp [hx]
+
+theorem closeExplicit_frames (frames : List Frame) (roots : List Tree) (c : Ctx)
+    (h : closeExplicit frames roots = .ok c) :
+    c.frames.map (·.d) = ((frames.map (·.d)).dropWhile (fun p => !p.explicit)).drop 1 := by
+  induction frames, roots using frames_ind with
+  | nil roots => rw [closeExplicit_nil] at h; cases h
+  | cons f below roots ih =>
+    rw [closeExplicit_cons] at h
+    cases hx : f.d.explicit with
+    | true =>
+      simp only [hx, ↓reduceIte] at h
+      cases h
+      simp [hx]
+    | false =>
+      simp only [hx, Bool.false_eq_true, ↓reduceIte] at h
+      rw [ih h, pop_map_d]
+      simp [hx]
+
+/-- (6) end of input is rejected iff a parenthesised directive is still open -/
+theorem resolve_eof (toks : List Tok) (c : Ctx) (h : consumeAll {} toks = .ok c) :
+    (∃ f, resolve toks = .ok f) ↔ anyExplicit c.frames = false := by
+  unfold resolve
+  rw [h]
+  cases hx : anyExplicit c.frames <;> simp [hx]
+
+/-- (7) nothing is lost or reordered: the pre-order token stream of the resulting forest is the input stream -/
+theorem resolve_flatten (toks : List Tok) (f : List Tree) (h : resolve toks = .ok f) : flattenForest f = toks := by
+  unfold resolve at h
+  split at h
+  · cases h
+  · rename_i c hc
+    split at h
+    · cases h
+    · rename_i hx
+      cases h
+      rw [closeAll_flat _ _ (by simpa using hx), consumeAll_flat _ _ _ hc]
+      simp [flat, openFlatten]
+
+/-! ### non-vacuity on the real tables -/
+section Examples
+private def url : Dir := { kind := .URL, id := 1 }
+private def get : Dir := { kind := .Get, id := 2 }
+private def req : Dir := { kind := .Request, id := 3 }
+private def body : Dir := { kind := .Body, id := 4 }
+private def getP : Dir := { kind := .Get, hasPath := true, id := 5 }
+private def urlX : Dir := { kind := .URL, explicit := true, id := 6 }
+private def ty : Dir := { kind := .Type, id := 7 }
+
+example : specWhere [req, get, url] body = .under 0 := by decide
+example : specWhere [body, req, get, url] get = .under 3 := by decide
+example : specWhere [body, req, get, url] getP = .under 3 := by decide
+example : hoists url getP = true ∧ hoists url get = false := by decide
+example : specWhere [body, req, get, url] ty = .top := by decide
+example : specWhere [body, req, get, urlX] ty = .nowhere := by decide
+example : specWhere [] body = .nowhere := by decide
+
+/-- URL, GET, Request, Body, then a path-bearing GET: the second GET is hoisted to top level -/
+example : resolve [.dir url, .dir get, .dir req, .dir body, .dir getP] =
+    .ok [.node url [.node get [.node req [.node body []]]], .node getP []] := by decide +kernel
+/-- the same with a path-less GET: it becomes a sibling of the first GET under the URL -/
+example : resolve [.dir url, .dir get, .dir req, .dir body, .dir get] =
+    .ok [.node url [.node get [.node req [.node body []]], .node get []]] := by decide +kernel
+/-- parenthesised URL: a TYPE inside it has no place; closing it first gives two top-level directives -/
+example : resolve [.dir urlX, .dir get, .dir ty] = .error (.incorrectContext 7) := by decide +kernel
+example : resolve [.dir urlX, .dir get, .close, .dir ty] =
+    .ok [.node urlX [.node get []], .node ty []] := by decide +kernel
+/-- a path-bearing method inside a parenthesised URL is rejected -/
+example : resolve [.dir urlX, .dir getP] = .error (.pathMethodInExplicit 5) := by decide +kernel
+/-- ")" without "(" -/
+example : resolve [.close] = .error .noExplicitToClose := by decide +kernel
+example : resolve [.dir url, .dir get, .close] = .error .noExplicitToClose := by decide +kernel
+/-- "(" never closed -/
+example : resolve [.dir urlX, .dir get] = .error .unclosedAtEOF := by decide +kernel
+/-- a Body with no open directive -/
+example : resolve [.dir body] = .error (.incorrectContext 4) := by decide +kernel
+end Examples
+
 end JSight.C06
